@@ -769,6 +769,7 @@ class LPData:
     b_eq: NDArray[np.floating] | None
     bounds: list[tuple[float | None, float | None]]
     variables: list[str]
+    c0: float = 0.0  # constant term of the objective (objective = c @ x + c0)
 
 
 def extract_all_linear_coefficients(
@@ -1178,6 +1179,7 @@ class LinearProgramExtractor:
             b_eq=b_eq,
             bounds=bounds,
             variables=[v.name for v in variables],
+            c0=extract_constant_term(problem.objective),  # type: ignore[arg-type]
         )
 
 
